@@ -473,7 +473,8 @@ func (c *Ctx) bindDecoders() (params, formats *ssa.Function) {
 				continue
 			}
 			// a helper that decodes the whole message and hands the fields back in a struct
-			if _, isStruct := f.Signature.Results().At(0).Type().Underlying().(*types.Struct); isStruct && depth > 0 && f.Signature.Recv() != nil {
+			// ... or as several results (readBind -> name, statement, parameters, formats)
+			if depth > 0 {
 				scan(f, depth-1)
 			}
 		}
